@@ -500,3 +500,9 @@ add("pgd-step-length-for-a-zero-hessian", F, ["C08"], "dfols/trust_region.py",
 add("s-pgd-zero-hessian-test-reversed", S, ["C08", "C12", "C13"], "dfols/trust_region.py",
     "    if L == 0.0:\n        # H = 2*J^T*J = 0 means J = 0, so g = 2*J^T*r = 0 too: the model is constant and there is no step to take\n        # (the step length 1/L below would be infinite and the step NaN)\n        return d, gnew, crvmin\n",
     "    if not L > 0.0:\n        return d, gnew, crvmin\n")
+
+# ---- pre-repair forms of F03e / F04c (init.run_in_parallel), and a drain loop that skips the current entry
+add("parallel-init-point-number-read-late", F, ["C03"], "dfols/controller.py",
+    "                self.model.change_point(k, x - self.model.xbase, rvec_list[0, :], eval_num)  # expect step, not absolute x", "                self.model.change_point(k, x - self.model.xbase, rvec_list[0, :], self.nx)  # expect step, not absolute x", "eval_num")
+add("parallel-init-drain-skips-the-current-result", F, ["C04"], "dfols/controller.py", "                    for j in range(k, num_directions + 1):", "                    for j in range(k + 1, num_directions + 1):", "C04-1")
+add("parallel-init-drain-reads-the-wrong-entry", F, ["C04"], "dfols/controller.py", "                        rvec_list, obj_list, num_samples_run, _, eval_num = eval_obj_results[j]", "                        rvec_list, obj_list, num_samples_run, _, eval_num = eval_obj_results[j - 1]", "C04-1")
